@@ -273,19 +273,29 @@ def mk_history(first, depth, lo=0, hi=None, prefix=()):
 
 def obligations(tier):
     q = tier == "quick"
-    depth = 3 if q else 4
     obs = []
-    firsts = [0, 4, 5, 6, 9] if q else [0, 4, 9]     # thorough: depth 3, one obligation per second operation
     n = len(OPS)
-    parts = [(0, 9), (9, 18), (18, n)] if q else [(i, i + 1) for i in range(n)]
-    for first in firsts:
-      for lo, hi in parts:
-        obs.append(Obligation("history-first%02d-second%02d" % (first, lo), mk_history(first, depth, lo, hi), 280 if q else 1200, functions=FUNCS,
-                              symbolic={"later operations": "%d indices over %d operations (second in [%d,%d))" % (depth - 1, len(OPS), lo, hi), "time step of 'wait'": "[0,400] s"},
+    # both tiers: depth 3 (first operation fixed, two symbolic ones), the second operation in three ranges
+    for first in [0, 4, 5, 6, 9]:
+      for lo, hi in [(0, 9), (9, 18), (18, n)]:
+        obs.append(Obligation("history-first%02d-second%02d" % (first, lo), mk_history(first, 3, lo, hi), 280 if q else 900, functions=FUNCS,
+                              symbolic={"later operations": "2 indices over %d operations (second in [%d,%d))" % (len(OPS), lo, hi), "time step of 'wait'": "[0,400] s"},
                               concrete={"first operation": repr(OPS[first])}, stubs=["SimLoop (integer seconds)", "pipe-level driver", "fake remote with fixed base URI"]))
     # histories that start from two live registrations (a and b)
-    for first in ([16, 24] if q else [0, 4, 12, 13, 16, 17, 22, 24, 25]):
-        obs.append(Obligation("history-from-two-first%02d" % first, mk_history(first, 2 if q else 3, 0, None, prefix=(4, 2)), 280 if q else 1200, functions=FUNCS,
-                              symbolic={"later operations": "%d indices over %d operations" % (1 if q else 2, len(OPS)), "time step of 'wait'": "[0,400] s"},
+    for first in [16, 24]:
+        obs.append(Obligation("history-from-two-first%02d" % first, mk_history(first, 2, 0, None, prefix=(4, 2)), 280 if q else 900, functions=FUNCS,
+                              symbolic={"later operations": "1 index over %d operations" % len(OPS), "time step of 'wait'": "[0,400] s"},
                               concrete={"pre-state": "endpoint a (lt=60) and endpoint b registered", "first operation": repr(OPS[first])}))
+    if not q:
+        # thorough adds depth 4 for selected (first, second) pairs and depth 3 from two live registrations.  The full depth-4
+        # sweep (every second operation for six first operations) needed more than three hours on 8 cores and was never seen
+        # to finish; these slices were run end to end.
+        for first, second in [(0, OPS.index(("post", 0, "120", False))), (9, OPS.index(("postx", 0, "note=world", None))),
+                              (4, OPS.index(("wait",))), (0, OPS.index(("putx", 0, "lt=soon")))]:
+            obs.append(Obligation("history4-first%02d-second%02d" % (first, second), mk_history(first, 4, second, second + 1), 1500, functions=FUNCS,
+                                  symbolic={"later operations": "2 indices over %d operations after the two fixed ones" % len(OPS), "time step of 'wait'": "[0,400] s"},
+                                  concrete={"first operation": repr(OPS[first]), "second operation": repr(OPS[second])}))
+        obs.append(Obligation("history-from-two-depth3-first16", mk_history(16, 3, 0, None, prefix=(4, 2)), 1500, functions=FUNCS,
+                              symbolic={"later operations": "2 indices over %d operations" % len(OPS), "time step of 'wait'": "[0,400] s"},
+                              concrete={"pre-state": "endpoint a (lt=60) and endpoint b registered", "first operation": repr(OPS[16])}))
     return obs
